@@ -384,6 +384,37 @@ theorem changingIndex_number (db : Db) (q : Quantity) (k : Kind) (xs : List Rat)
   simp only [FixedArr.changingIndex, FixedArr.scalarFor, ↓reduceIte, Arr.getValues, BEq.rfl]
   cases k <;> simp [Kind.mk, Val.items, hown, hi, hn']
 
+/-- **`ChangingIndex(i, (value, unit, category))`** is `ChangingIndex` with the Scalar
+`Scalar(quantity, values[i]).CreateCopy(value, unit, category)` -/
+theorem changingIndex_tuple_eq_scalar {db : Db} {fa : FixedArr} {i : Int} {value : Option Rat}
+    {unit category : Option Sym} {s : Scalar} (hs : fa.scalarFor db i (.tuple value unit category) = .ok s)
+    (useValueUnit : Bool) :
+    fa.changingIndex db i (.tuple value unit category) useValueUnit
+      = fa.changingIndex db i (.scalar s) useValueUnit := by
+  simp only [FixedArr.changingIndex, hs]
+  simp [FixedArr.scalarFor]
+
+/-- **`ChangingIndex(i, Scalar, use_value_unit=False)`** keeps the array's quantity and values; item `i`
+is the Scalar's amount expressed in the array's unit -/
+theorem changingIndex_scalar_keep_unit {db : Db} (q : Quantity) (s : Scalar) {y : Rat}
+    (hy : s.getValue db (some q.unit) = .ok y) (k : Kind) (xs : List Rat) {i : Int} {j : Nat}
+    (hi : normIndex xs.length i = .ok j) (hn : 2 ≤ xs.length) :
+    (FixedArr.mk xs.length ⟨q, k.mk xs⟩).changingIndex db i (.scalar s) false
+      = .ok ⟨xs.length, ⟨q, .tuple (setAt (xs.map .num) j (.num y))⟩⟩ := by
+  have hn' : ¬ xs.length < 2 := by omega
+  simp only [FixedArr.changingIndex, FixedArr.scalarFor, Bool.false_eq_true, ↓reduceIte, Arr.getValues, BEq.rfl]
+  cases k <;> simp [Kind.mk, Val.items, hy, hi, hn']
+
+/-- **`IndexAsScalar(i)`** without a quantity: the stored item, with the array's quantity -/
+theorem indexAsScalar_own (db : Db) (q : Quantity) (k : Kind) (xs : List Rat) (n : Nat) {i : Int} {j : Nat}
+    {x : Rat} (hi : normIndex xs.length i = .ok j) (hx : xs[j]? = some x) :
+    (FixedArr.mk n ⟨q, k.mk xs⟩).indexAsScalar db i none = .ok ⟨q, x⟩ := by
+  simp only [FixedArr.indexAsScalar, Option.getD_none, Arr.getValues, BEq.rfl, ↓reduceIte]
+  have hidx : (k.mk xs).index i = .ok (.num x) := by
+    unfold Val.index
+    cases k <;> simp [Kind.mk, Val.items, hi, hx]
+  simp [hidx, Elem.asNum]
+
 /-! ### 6. `UnitSystemManager.ConvertToCurrent / ConvertScalarToCurrent` -/
 
 /-- **`ConvertToCurrent`**: the float conversion to the unit the current system maps the category to;
